@@ -217,6 +217,12 @@ class Calls:
         for c in rest:
             if c in w.classes and mname in w.classes[c]['methods']:
                 return self.call_method(it, selfv, c, mname, args, kwargs, e, static=True)
+        # a base class outside the class table (external library): its method by contract
+        for c in mro:
+            for b in w.classes.get(c, {}).get('bases', []):
+                ct = w.contracts.get(f'{b}.{mname}')
+                if ct is not None:
+                    return w.apply_contract(it, ct, {'self': selfv}, args, kwargs, e)
         if mname in ('__init__', '__init_subclass__'):
             return SV(V.NoneV)
         raise Unsupported(f'super().{mname} not found from {fr.cls}')
@@ -336,6 +342,8 @@ class Calls:
             return PV('bound', (obj, cls, name))
         if w.classes[cls].get('abstract') and f'iface::{cls}.{name}' in w.contracts:
             return PV('bound', (obj, cls, name))
+        if f'{cls}.{name}' in w.contracts:
+            return PV('bound', (obj, cls, name))
         # class-level constant
         ca = w.class_const(cls, name)
         if ca is not None:
@@ -375,9 +383,13 @@ class Calls:
         if isinstance(cm, SV) and cm.ty in ('lock', 'rlock'):
             it.locks.append(cm.t)
             return None
+        if isinstance(cm, SV) and cm.ty in self.world.classes and self.world.classes[cm.ty].get('context_manager') == 'self':
+            return cm
         raise Unsupported(f'with on {cm}')
 
     def with_exit(self, it, cm, tok):
+        if isinstance(cm, SV) and cm.ty in self.world.classes and self.world.classes[cm.ty].get('context_manager') == 'self':
+            return
         if isinstance(cm, SV) and cm.ty in ('lock', 'rlock'):
             for k in range(len(it.locks) - 1, -1, -1):
                 if it.locks[k].eq(cm.t):
@@ -415,7 +427,7 @@ class Builtins:
              'implies', 'num_eq', 'same_num', 'is_ascii', 'py_eq', 'is_obj', 'forall_items', 'is_seq', 'keys_of',
              'is_canonical_b64', 'b64_text', 'is_instance_of', 'class_of', 'is_whole', 'realnum', 'is_ok_float',
              'fresh_from', 'is_fresh', 'same_object', 'is_valid_b64', 'b64_bytes', 'mk_enum',
-             'seq_eq', 'is_wire', 'in_universe', 'on_grid', 'same_value', 'enum_owned', 'forall_int', 'forall_str', 'exists_int', 'has_dyn', 'is_prefix', 'unchanged', 'last', 'nth', 'held', 'time_time', 'time_sleep', 'as_float', 'enum_has_name', 'enum_code', 'enum_has_code', 'enum_name'}
+             'seq_eq', 'is_wire', 'in_universe', 'on_grid', 'same_value', 'enum_owned', 'forall_int', 'forall_str', 'forall_obj', 'exists_int', 'has_dyn', 'is_prefix', 'unchanged', 'last', 'nth', 'held', 'dict_same_except', 'time_time', 'time_sleep', 'as_float', 'enum_has_name', 'enum_code', 'enum_has_code', 'enum_name'}
 
     def call(self, it, name, args, kwargs, node):
         m = getattr(self, 'bi_' + name, None)
@@ -462,7 +474,7 @@ class Builtins:
             return SV(const(False))
         return SV(V.BoolV(z3.And(vals.is_finite(x), z3.ToReal(z3.ToInt(num(x))) == num(x))))
 
-    def _forall(self, it, lam, sort, wrap, exists=False):
+    def _forall(self, it, lam, sort, wrap, exists=False, want=None):
         """quantifier over all ints / strings (VC only: loop invariants and lemmas)"""
         if not (isinstance(lam, PV) and lam.kind == 'lambda'):
             raise Unsupported('forall_* needs a lambda')
@@ -483,7 +495,7 @@ class Builtins:
             return SV(V.BoolV(z3.Exists([b], body)))
         # the quantifier often has no usable trigger: add its instances at the input terms of that sort
         insts = []
-        want = 'IntV' if sort == IntS else 'StrV'
+        want = want or ('IntV' if sort == IntS else 'StrV')
         for t in it.inputs.values():
             if t.sort() != Val:
                 continue
@@ -497,6 +509,9 @@ class Builtins:
 
     def bi_forall_int(self, it, a, k, n):
         return self._forall(it, a[0], IntS, V.IntV)
+
+    def bi_forall_obj(self, it, a, k, n):
+        return self._forall(it, a[0], IntS, V.ObjV, want='ObjV')
 
     def bi_forall_str(self, it, a, k, n):
         return self._forall(it, a[0], StrS, V.StrV)
@@ -518,6 +533,23 @@ class Builtins:
             seq = self.world.ghost_seq(it, 'slept')
             it.ghost['slept'] = z3.Concat(seq, z3.Unit(a[0].t))
         return SV(V.NoneV)
+
+    def bi_dict_same_except(self, it, a, k, n):
+        """the two dicts / sets agree on every key other than the given ones (frame of a keyed update)"""
+        d1, d0 = it.refine(a[0].t), it.refine(a[1].t)
+        kx = z3.String('k!dse')
+        excl = []
+        for x in a[2:]:
+            xt = it.split_kind(x).t
+            it.assume_axiom(vals.key_axiom(xt))
+            excl.append(kx != vals.ks(xt))
+        guard = z3.And(*excl) if excl else z3.BoolVal(True)
+        if O.ctor(d1) == 'SetV' and O.ctor(d0) == 'SetV':
+            body = z3.Select(d1.arg(0), kx) == z3.Select(d0.arg(0), kx)
+        else:
+            body = z3.And(z3.Select(V.dhas(d1), kx) == z3.Select(V.dhas(d0), kx),
+                          z3.Implies(z3.Select(V.dhas(d0), kx), z3.Select(V.dmap(d1), kx) == z3.Select(V.dmap(d0), kx)))
+        return SV(V.BoolV(z3.ForAll([kx], z3.Implies(guard, body))))
 
     def bi_held(self, it, a, k, n):
         """the lock is held by the executing thread at this point (ghost set of held locks)"""
@@ -841,9 +873,25 @@ class Builtins:
     def bi_sorted(self, it, a, k, n):
         if k:
             raise Unsupported('sorted with key')
+        if isinstance(a[0], PV) and a[0].kind == 'genexp':
+            a = [self.world.loops.comprehension(it, a[0].data[0], 'list', a[0].data[1])]
         seq = self.world.loops.iter_seq(it, a[0])
         ln = simp(z3.Length(seq))
-        if not z3.is_int_value(ln) or ln.as_long() > 3:
+        if not z3.is_int_value(ln):
+            # symbolic length: strings only - an ordered permutation of the input
+            i, j = z3.Int('i!srt'), z3.Int('j!srt')
+            if not (isinstance(a[0], SV) and O._elem_type(a[0].ty) == 'str') and \
+                    it.feasible(z3.Exists([i], z3.And(0 <= i, i < z3.Length(seq), z3.Not(V.is_StrV(seq[i]))))):
+                raise Unsupported('sorted of a sequence of unknown length whose elements are not all strings')
+            r = it.fresh('sorted', vals.SeqVal)
+            x = z3.Const('x!srt', Val)
+            it.assume_axiom(z3.And(
+                z3.Length(r) == z3.Length(seq),
+                z3.ForAll([i], z3.Implies(z3.And(0 <= i, i < z3.Length(r)), V.is_StrV(r[i]))),
+                z3.ForAll([i, j], z3.Implies(z3.And(0 <= i, i < j, j < z3.Length(r)), V.s(r[i]) <= V.s(r[j]))),
+                z3.ForAll([x], z3.Contains(r, z3.Unit(x)) == z3.Contains(seq, z3.Unit(x)))))
+            return SV(V.ListV(r), 'list:str')
+        if ln.as_long() > 3:
             raise Unsupported('sorted of long/unknown sequence')
         items = [simp(seq[j]) for j in range(ln.as_long())]
         for x in items:
@@ -1078,6 +1126,16 @@ class Builtins:
         if m is None:
             raise Unsupported(f'method .{name} of data value')
         res = m(it, obj, args, kwargs)
+        if name in ('get', 'setdefault') and write_back is not None and it.mode == 'code' and args:
+            # the returned element is an alias of the slot it was taken from (matters when it is mutated later)
+            from .engine import _Lit
+            slot = ast.Subscript(value=write_back, slice=_Lit(args[0]), ctx=ast.Load())
+            ast.copy_location(slot, write_back)
+            slot.lineno = getattr(write_back, 'lineno', 0)
+            if isinstance(res, tuple) and isinstance(res[0], SV):
+                res = (SV(res[0].t, res[0].ty, slot), res[1])
+            elif isinstance(res, SV) and not (len(args) > 1 and res is args[1]):
+                res = SV(res.t, res.ty, slot)
         if isinstance(res, tuple):
             result, newobj = res
             if write_back is None:
@@ -1110,17 +1168,18 @@ class Builtins:
 
     def dm_get(self, it, obj, a, k):
         self._need(it, obj, V.is_DictV, '.get()')
-        t, key = obj.t, a[0].t
+        t, key = obj.t, (it.split_kind(a[0]).t if O.nonstring_keys(it, obj) else it.refine(a[0].t))
         default = it.as_val(a[1]) if len(a) > 1 else V.NoneV
         if obj.ty and obj.ty.startswith('enumdict'):
             raise Unsupported('Enum.get')
         self.world.ops.outcome(it, [(z3.Not(O._hashable(key)), 'TypeError'), (O._hashable(key), None)], 'get key')
-        if O.ctor(it.refine(key)) == 'StrV':
-            self.world.lazy_instantiate(it, it.refine(t), it.refine(key).arg(0))
-        present = z3.And(V.is_StrV(key), z3.Select(V.dhas(t), V.s(key)))
+        if O.ctor(it.refine(key)) in ('StrV', 'ObjV'):
+            self.world.lazy_instantiate(it, it.refine(t), vals.ks(it.refine(key)))
+        it.assume_axiom(vals.key_axiom(key))
+        present = z3.And(vals.is_key(key), z3.Select(V.dhas(t), vals.ks(key)))
         # fork on presence: later terms stay free of if-then-else chains
         if it.branch(present, 'dict.get'):
-            el = simp(z3.Select(V.dmap(t), V.s(it.refine(key))))
+            el = simp(z3.Select(V.dmap(t), vals.ks(it.refine(key))))
             self.world.element_kind(it, el, O._elem_type(obj.ty))
             return SV(el, O._elem_type(obj.ty))
         return SV(default, None)
@@ -1150,27 +1209,32 @@ class Builtins:
             return SV(simp(items[n - 1]), O._elem_type(obj.ty)), SV(V.ListV(z3.SubSeq(items, 0, n - 1)), obj.ty, obj.src)
         if obj.ty == 'ImmutableDict':
             it.raise_('TypeError')
-        key = a[0].t
-        present = z3.And(V.is_StrV(key), z3.Select(V.dhas(t), V.s(key)))
+        key = it.refine(a[0].t)
+        it.assume_axiom(vals.key_axiom(key))
+        present = z3.And(vals.is_key(key), z3.Select(V.dhas(t), vals.ks(key)))
         if len(a) > 1:
             kk2 = it.choose([present, z3.Not(present)], 'pop key')
             if kk2 == 1:
                 return a[1], SV(t, obj.ty, obj.src)
         else:
             self.world.ops.outcome(it, [(z3.Not(present), 'KeyError'), (present, None)], 'pop key')
-        val = simp(z3.Select(V.dmap(t), V.s(key)))
-        return SV(val, O._elem_type(obj.ty)), SV(O.dict_remove(it, t, V.s(key)), obj.ty, obj.src)
+        val = simp(z3.Select(V.dmap(t), vals.ks(key)))
+        return SV(val, O._elem_type(obj.ty)), SV(O.dict_remove(it, t, vals.ks(key)), obj.ty, obj.src)
 
     def dm_setdefault(self, it, obj, a, k):
         self._need(it, obj, V.is_DictV, '.setdefault()')
         t, key = obj.t, a[0].t
         default = it.as_val(a[1]) if len(a) > 1 else V.NoneV
-        if it.feasible(z3.Not(V.is_StrV(key))):
-            raise Unsupported('setdefault with non-string key')
-        present = z3.Select(V.dhas(t), V.s(key))
-        val = z3.If(present, z3.Select(V.dmap(t), V.s(key)), default)
-        new = z3.If(present, t, O.dict_store(t, V.s(key), default))
-        return SV(simp(val), O._elem_type(obj.ty)), SV(simp(new), obj.ty, obj.src)
+        key = it.refine(key)
+        if it.feasible(z3.Not(vals.is_key(key))):
+            raise Unsupported('setdefault with a key that is neither a string nor an object')
+        it.assume_axiom(vals.key_axiom(key))
+        present = z3.Select(V.dhas(t), vals.ks(key))
+        if it.branch(present, 'setdefault'):
+            el = simp(z3.Select(V.dmap(t), vals.ks(key)))
+            self.world.element_kind(it, el, O._elem_type(obj.ty))
+            return SV(el, O._elem_type(obj.ty)), SV(t, obj.ty, obj.src)
+        return SV(default, O._elem_type(obj.ty)), SV(simp(O.dict_store(t, key, default)), obj.ty, obj.src)
 
     def dm_update(self, it, obj, a, k):
         self._need(it, obj, V.is_DictV, '.update()')
@@ -1223,15 +1287,17 @@ class Builtins:
 
     def dm_add(self, it, obj, a, k):
         self._need(it, obj, V.is_SetV, '.add()')
-        x = a[0].t
-        if it.feasible(z3.Not(V.is_StrV(x))):
-            raise Unsupported('set.add of non-string')
-        return SV(V.NoneV), SV(V.SetV(z3.Store(V.selems(obj.t), V.s(x), z3.BoolVal(True))), obj.ty, obj.src)
+        x = it.refine(a[0].t)
+        if it.feasible(z3.Not(vals.is_key(x))):
+            raise Unsupported('set.add of a value that is neither a string nor an object')
+        it.assume_axiom(vals.key_axiom(x))
+        return SV(V.NoneV), SV(V.SetV(z3.Store(V.selems(obj.t), vals.ks(x), z3.BoolVal(True))), obj.ty, obj.src)
 
     def dm_discard(self, it, obj, a, k):
         self._need(it, obj, V.is_SetV, '.discard()')
-        x = a[0].t
-        new = z3.If(V.is_StrV(x), V.SetV(z3.Store(V.selems(obj.t), V.s(x), z3.BoolVal(False))), obj.t)
+        x = it.refine(a[0].t)
+        it.assume_axiom(vals.key_axiom(x))
+        new = z3.If(vals.is_key(x), V.SetV(z3.Store(V.selems(obj.t), vals.ks(x), z3.BoolVal(False))), obj.t)
         return SV(V.NoneV), SV(simp(new), obj.ty, obj.src)
 
     def dm_encode(self, it, obj, a, k):
@@ -1280,6 +1346,11 @@ class Builtins:
 
     def dm_split(self, it, obj, a, k):
         self._need(it, obj, V.is_StrV, '.split()')
+        if len(a) == 1 and O.ctor(it.refine(a[0].t)) == 'StrV':
+            # split(sep): only the case "separator does not occur" is modelled exactly
+            if it.branch(z3.Contains(V.s(obj.t), it.refine(a[0].t).arg(0)), 'split'):
+                raise Unsupported('str.split(sep) of a string containing the separator')
+            return SV(V.ListV(vals.valseq([obj.t])), 'list:str')
         if len(a) != 2:
             raise Unsupported('str.split without separator and maxsplit')
         sep, mx = it.refine(a[0].t), it.refine(a[1].t)
@@ -1295,6 +1366,11 @@ class Builtins:
             it.assume_axiom(z3.Implies(z3.Contains(sv, sp), z3.And(sv == z3.Concat(h, sp, t), z3.Not(z3.Contains(h, sp)))))
             return SV(V.ListV(vals.valseq([V.StrV(h), V.StrV(t)])), 'list:str')
         return SV(V.ListV(vals.valseq([V.StrV(sv)])), 'list:str')
+
+    def dm_lower(self, it, obj, a, k):
+        self._need(it, obj, V.is_StrV, '.lower()')
+        LOWER = self.world.uf('lower!', [StrS, StrS])
+        return SV(V.StrV(LOWER(V.s(obj.t))))
 
     def dm_replace(self, it, obj, a, k):
         self._need(it, obj, V.is_StrV, '.replace()')
